@@ -97,6 +97,8 @@ pub struct RunReport {
     pub harness_errors: Vec<String>,
     pub agg: Agg,
     pub sample: Option<serde_json::Value>,
+    /// hash of the scheduler choice trace of every World A execution of this run
+    pub schedule_hashes: Vec<u64>,
     /// digest of what this run observed (C12: transcripts), compared across worker processes
     pub digest: Option<u64>,
 }
@@ -105,7 +107,7 @@ pub struct RunReport {
 pub fn class_bears_on(class: &str, property: &str) -> bool {
     let c = class;
     match property {
-        "C04" => matches!(c, "panic" | "illegal-bestmove" | "non-termination" | "abort"),
+        "C04" => matches!(c, "panic" | "illegal-bestmove" | "non-termination" | "abort" | "limit-ignored"),
         "C05" => matches!(
             c,
             "deadlock"
@@ -116,6 +118,8 @@ pub fn class_bears_on(class: &str, property: &str) -> bool {
                 | "missing-bestmove"
                 | "unsolicited-bestmove"
                 | "stop-not-honoured"
+                | "command-stuck"
+                | "limit-ignored"
                 | "engine-exit"
                 | "non-termination"
         ),
@@ -127,9 +131,9 @@ pub fn class_bears_on(class: &str, property: &str) -> bool {
         "C12" => matches!(c, "transcript-diff" | "newgame-not-fresh" | "bench-diff"),
         "C13" => matches!(
             c,
-            "option-rejected" | "panic" | "abort" | "illegal-bestmove" | "missing-readyok" | "missing-bestmove" | "deadlock" | "engine-exit" | "options-not-advertised" | "stop-not-honoured"
+            "option-rejected" | "panic" | "abort" | "illegal-bestmove" | "missing-readyok" | "missing-bestmove" | "deadlock" | "engine-exit" | "options-not-advertised" | "stop-not-honoured" | "command-stuck"
         ),
-        "C14" => matches!(c, "limit-hard-exceeds-half" | "limit-soft-exceeds-hard" | "limit-movetime-not-as-given" | "flag-fall" | "limits-missing"),
+        "C14" => matches!(c, "limit-hard-exceeds-half" | "limit-soft-exceeds-hard" | "limit-movetime-not-as-given" | "flag-fall" | "limits-missing" | "limit-ignored"),
         "C19" => c.starts_with("tt-") || matches!(c, "panic" | "abort"),
         _ => false,
     }
